@@ -29,6 +29,24 @@ CHECKS = {
         note="uses lelwel's own follow sets inside the formula (C09 owns them); graph construction follows README/RecoverySetGenerator conventions for unused parts",
         design="§3 C14",
     ),
+    "C12": dict(
+        technique="runtime monitoring: panic/abort monitor + span-validity and renderability assertions around the real lexer/parser/SemanticPass (dev build with debug assertions and overflow checks, and release build), exhaustive short item sequences + mutated repository grammars + character soup",
+        text="Every text of the workload (exhaustively all sequences up to the stated length over a 41-item lexical alphabet; token-level mutants of every repository grammar; multi-byte soup) is fed to the real front end in two build profiles; a panic, a label outside the text or off a char boundary, or a diagnostic that codespan cannot render is a violation.",
+        note="trusts catch_unwind to observe panics (a process abort is detected by the shard dying and reported as a violation); exhaustive only up to the stated sequence length",
+        design="§3 C12",
+    ),
+    "C17": dict(
+        technique="runtime monitoring: panic monitor + content-preservation oracles (non-whitespace characters; logos token/comment sequence; re-parse; semantic diagnostics) around the real formatter, dev+release, plus the real `llw -f` on disk",
+        text="All texts of the T-text workload are formatted by the real formatter in two build profiles; output must keep the non-whitespace characters; for syntactically valid files the token/comment sequence, syntactic validity and semantic diagnostics must be unchanged; `llw -f` must write exactly that output and nothing else.",
+        note="comment comparison ignores trailing blanks of line comments and CR before LF inside block comments (layout)",
+        design="§3 C17",
+    ),
+    "C18": dict(
+        technique="runtime monitoring: fixpoint oracle format(format(x)) == format(x) over generated layouts (comment-free, exactly-one-comment in every gap class, comments anywhere), dev+release, and `llw -f` followed by `llw -f -c` with the real binary",
+        text="Syntactically valid files in random layouts are formatted twice by the real formatter; any non-fixpoint is classified by the first differing line; classes listed in known_findings.jsonl (comment first after `:`/`(`/`[`; comment after a wrapped line) are reported as KNOWN-FINDING, anything else is a violation. The exit status of `llw -f -c` is compared with format(x)==x.",
+        note="the classification of a non-fixpoint is structural (what precedes the first line that differs between pass 1 and pass 2)",
+        design="§3 C18",
+    ),
 }
 
 NOT_YET = "check not built yet in this round; design in DESIGN.md §3, build order §7"
